@@ -50,6 +50,7 @@ def tasks(tier):
     ts.append(("softening", "run_softening", {}))
     ts.append(("plasticity", "run_plasticity", {}))
     ts.append(("job with a global field", "run_job_x0", {}))
+    ts.append(("array-valued ramp table", "run_ramp_table", {}))
     # the usual way to give a history-dependent material a volumetric part is `material & Volumetric(...)`: what the body stores as trial
     # state (and commits after convergence) is what the composite hands out
     ts.append(("composite state", "run_included", dict(modname="c03", fname="run_composite", kwargs={}, oid="C15.O8", select_oid="C03.O8",
@@ -105,6 +106,55 @@ def run_job_x0(col):
             len(seen) == nsub + 2 and not bad, "mechanics/_job.py Job.evaluate: %d Newton calls; substeps started from stale values: %s" % (len(seen), bad))
     final = [P(v) for v in scenario.flat_values(it, x0)]
     col.add("C15.O2", "Job.evaluate(x0=global field) final state", "after the job the global field carries the last converged values", bool(sols) and all(is_zero(a - b) for a, b in zip(final, sols[-1])))
+    finish_info(col, it)
+
+
+def run_ramp_table(col):
+    """O1 (real Boundary): an array-valued ramp -- one row of prescribed components per substep -- is applied row by row, in every pass over the
+    table (the same step listed twice, a second evaluation), and the user's table is left as it was"""
+    it = new_interp()
+    it.lazy_generators = True
+    fc, n, dof0, dof1, ext0, regs = scenario.make_problem(it)
+    B = it.get("felupe.dof._boundary:Boundary")
+    f0 = it.getattr(fc, "fields")[0]
+    npts = np.asarray(it.getattr(f0, "values")).shape[0]
+    mask = np.zeros(npts, dtype=bool)
+    mask[0] = True
+    bnd = it.call(B, [f0], dict(mask=mask))
+    nsub = 3
+    table = symarray("T", (nsub, 2))
+    table0 = table.copy()
+    applied = []
+
+    class Res:
+        pass
+
+    def newton(interp, fn, args, kwargs):
+        r = Res()
+        r.success = True
+        r.x = fc
+        r.fnorms = [0]
+        return r
+
+    def h_apply(interp, fn, args, kwargs):
+        v = interp.getattr(bnd, "value")
+        applied.append([P(x) for x in npmodel.to_obj(np.asarray(v)).reshape(-1)])
+        return ext0
+
+    it.call_hooks[("felupe.tools._newton", "newtonrhapson")] = newton
+    it.call_hooks[("felupe.dof._tools", "partition")] = lambda interp, fn, args, kwargs: (dof0, dof1)
+    it.call_hooks[("felupe.dof._tools", "apply")] = h_apply
+    Step = it.get("felupe.mechanics._step:Step")
+    item = scenario.FakeItem([], "A", fc, n)
+    step = it.call(Step, [], dict(items=[item], ramp={bnd: table}, boundaries={"b": bnd}))
+    for _ in range(2):
+        for res in it.call_method(step, "generate", [], dict(verbose=False)):
+            pass
+    want = [[P(x) for x in table0[k]] for k in range(nsub)] * 2
+    bad = [k for k in range(len(want)) if k >= len(applied) or len(applied[k]) != 2 or any(not is_zero(a - b) for a, b in zip(applied[k], want[k]))]
+    changed = [(i, j) for i in range(nsub) for j in range(2) if not is_zero(P(table[i, j]) - P(table0[i, j]))]
+    col.add("C15.O1", "array-valued ramp on a Boundary, two passes", "substep i of every pass applies row i of the ramp table; the table itself is not modified by the passes",
+            len(applied) == 2 * nsub and not bad and not changed, "dof/_boundary.py Boundary.update: substeps (both passes numbered on) with a wrong row %s; table entries changed %s" % (bad, changed))
     finish_info(col, it)
 
 
